@@ -480,31 +480,45 @@ def _deep_crowns_multi_fault(ctx):
     from dataclasses import make_dataclass  # noqa: PLC0415
 
     from adaptix import ExtraForbid, Retort, name_mapping  # noqa: PLC0415
-    M = make_dataclass("Deep05", [("a", int), ("b", int), ("c", int), ("d", int), ("e", int), ("f", int)])
-    recipe = [name_mapping(M, map={"a": ("h", "g1", "a"), "b": ("h", "g2", "b"), "d": ("h", "d"), "e": ("h", "g3", 0), "f": ("h", "g3", 1)}, extra_in=ExtraForbid())]
+    # the keys of a crown are visited in sorted order: "b0" before the nested crowns g1 / g2 / g3, "z" after them
+    M = make_dataclass("Deep05", [("a", int), ("b", int), ("c", int), ("d", int), ("d0", int), ("e", int), ("f", int)])
+    recipe = [name_mapping(M, map={"a": ("h", "g1", "a"), "b": ("h", "g2", "b"), "c": ("p", "c"), "d": ("h", "z"), "d0": ("h", "b0"), "e": ("h", "g3", 0), "f": ("h", "g3", 1)}, extra_in=ExtraForbid())]
 
     def valid():
-        return {"h": {"g1": {"a": 1}, "g2": {"b": 2}, "d": 4, "g3": [5, 6]}, "c": 3}
+        return {"h": {"g1": {"a": 1}, "g2": {"b": 2}, "z": 4, "b0": 0, "g3": [5, 6]}, "p": {"c": 3}}
     faults = {   # name: (apply, expected trail, names it cannot be combined with)
         "g1-not-a-mapping": (lambda d: d["h"].__setitem__("g1", 5), ("h", "g1"), ()),
         "g2-not-a-mapping": (lambda d: d["h"].__setitem__("g2", [1]), ("h", "g2"), ("bad-b", "junk-in-g2")),
         "g3-not-a-sequence": (lambda d: d["h"].__setitem__("g3", 7), ("h", "g3"), ("bad-f",)),
         "bad-b": (lambda d: d["h"]["g2"].__setitem__("b", "bad"), ("h", "g2", "b"), ("g2-not-a-mapping",)),
-        "bad-d": (lambda d: d["h"].__setitem__("d", "bad"), ("h", "d"), ()),
+        "bad-d": (lambda d: d["h"].__setitem__("z", "bad"), ("h", "z"), ()),
         "bad-f": (lambda d: d["h"]["g3"].__setitem__(1, "bad"), ("h", "g3", 1), ("g3-not-a-sequence",)),
-        "bad-c": (lambda d: d.__setitem__("c", "bad"), ("c",), ()),
+        "bad-c": (lambda d: d["p"].__setitem__("c", "bad"), ("p", "c"), ()),
         "junk-in-h": (lambda d: d["h"].__setitem__("junk", 0), ("h",), ()),
         "junk-in-g2": (lambda d: d["h"]["g2"].__setitem__("junk", 0), ("h", "g2"), ("g2-not-a-mapping",)),
+        # required keys missing in SEVERAL input mappings: one error per mapping, each reported once (seeded change, found four times: one
+        # 'already reported' flag shared by all crowns; caught at seeds 0 and 1 by a random case only). Missing keys of ONE mapping form a group.
+        "missing-a": (lambda d: d["h"]["g1"].pop("a"), ("h", "g1"), ("g1-not-a-mapping",)),
+        "missing-b": (lambda d: d["h"]["g2"].pop("b"), ("h", "g2"), ("g2-not-a-mapping", "bad-b")),
+        "missing-d": (lambda d: d["h"].pop("z"), ("h", "<missing>"), ("bad-d",)),
+        "missing-d0": (lambda d: d["h"].pop("b0"), ("h", "<missing>"), ()),
+        "missing-c": (lambda d: d["p"].pop("c"), ("p", "<missing>"), ("bad-c",)),
+        # ... and whole sub-mappings that are absent: the key of a nested crown is a required key of the enclosing mapping
+        "missing-g1": (lambda d: d["h"].pop("g1"), ("h", "<missing>"), ("g1-not-a-mapping", "missing-a")),
+        "missing-g2": (lambda d: d["h"].pop("g2"), ("h", "<missing>"), ("g2-not-a-mapping", "bad-b", "junk-in-g2", "missing-b")),
+        "missing-g3": (lambda d: d["h"].pop("g3"), ("h", "<missing>"), ("g3-not-a-sequence", "bad-f")),
+        "missing-p": (lambda d: d.pop("p"), ("<missing>",), ("bad-c", "missing-c")),
     }
     names = list(faults)
-    for k in (1, 2, 3, 4):
+    for k in ((1, 2, 3) if ctx.tier == "quick" else (1, 2, 3, 4)):
         for chosen in itertools.combinations(names, k):
             if any(o in chosen for n in chosen for o in faults[n][2]):
                 continue
             datum = valid()
             for n in chosen:
                 faults[n][0](datum)
-            want = sorted((faults[n][1] for n in chosen), key=repr)
+            want = sorted({faults[n][1] for n in chosen if faults[n][1][-1:] == ("<missing>",)} | set(), key=repr)   # one error per mapping with missing keys
+            want = sorted([t[:-1] for t in want] + [faults[n][1] for n in chosen if faults[n][1][-1:] != ("<missing>",)], key=repr)
             for dt in (DebugTrail.ALL, DebugTrail.FIRST, DebugTrail.DISABLE):
                 out = attempt(Retort(recipe=recipe, debug_trail=dt).load, copy.deepcopy(datum), M)
                 ctx.evaluated(("deep-crowns", chosen, dt.name), nontrivial=True)
